@@ -125,3 +125,100 @@ def r_C16f(root):
             if bad: out.append(Finding("C16", "C16.f", M, qualname(n), "%s._tx_metamodel" % rt[:80], "the metamodel is reached through a rule/class object; for the shared base-type rules that is the metamodel built last, not the one in use"))
     if inst < 4: raise AnalysisError("parse_tree_to_objgraph: only %d processor dispatch sites found" % inst)
     return inst, out
+
+def r_memo(root):
+    """C16.i  no result that depends on anything but the arguments is memoized process-wide: every use of functools.lru_cache /
+    functools.cache (decorator or call) in the package wraps a function of the package whose body - and the bodies of the
+    package functions it calls - neither reads files or the environment (open, os.*, glob, io) nor module-level mutable
+    state (global statements, registries), and not a callable handed in from outside (whose purity the package cannot
+    know: a user's meta-model factory, a processor).  Expected count on this tree: 0 uses; a built-in fixture keeps the
+    rule honest."""
+    import ast
+    out = []; inst = 0
+    NAMES = {"lru_cache", "cache", "cached_property"}
+    def uses(tree):
+        res = []
+        for n in ast.walk(tree):
+            if isinstance(n, (ast.FunctionDef, ast.AsyncFunctionDef)):
+                for d in n.decorator_list:
+                    c = d.func if isinstance(d, ast.Call) else d
+                    nm = c.attr if isinstance(c, ast.Attribute) else (c.id if isinstance(c, ast.Name) else None)
+                    if nm in NAMES and (isinstance(c, ast.Name) or (isinstance(c.value, ast.Name) and c.value.id == "functools")): res.append((d, n, "decorator"))
+            if isinstance(n, ast.Call):
+                c = n.func
+                # functools.cache(f) / lru_cache(maxsize=None)(f)
+                inner = c.func if isinstance(c, ast.Call) else c
+                nm = inner.attr if isinstance(inner, ast.Attribute) else (inner.id if isinstance(inner, ast.Name) else None)
+                if nm in ("lru_cache", "cache") and (isinstance(inner, ast.Name) or (isinstance(inner.value, ast.Name) and inner.value.id == "functools")):
+                    if any(n is d or (isinstance(d, ast.Call) and d.func is n) for f in ast.walk(tree) if isinstance(f, (ast.FunctionDef, ast.AsyncFunctionDef)) for d in f.decorator_list): continue
+                    if isinstance(c, ast.Call) and c is not n: arg = n.args[0] if n.args else None       # lru_cache(...)(f)
+                    elif n.args and not isinstance(n.func, ast.Call) and nm == "cache": arg = n.args[0]
+                    elif n.args and nm == "lru_cache" and not n.keywords and not isinstance(n.args[0], ast.Constant): arg = n.args[0]
+                    else: continue
+                    res.append((n, arg, "call"))
+        return res
+    def impure(fn, tree, depth=0, seen=None):
+        seen = seen if seen is not None else set()
+        if fn in seen or depth > 4: return None
+        seen.add(fn)
+        for n in ast.walk(fn):
+            if isinstance(n, ast.Global): return "global %s" % ", ".join(n.names)
+            if isinstance(n, ast.Call):
+                nm = callee_name(n)
+                if nm in ("open", "glob", "iglob", "getenv", "listdir", "walk", "exists", "isfile", "isdir", "getcwd", "abspath", "entry_points", "input"): return "%s(...)" % nm
+                if isinstance(n.func, ast.Attribute) and isinstance(n.func.value, ast.Name) and n.func.value.id in ("os", "sys", "io", "glob", "pathlib", "time", "random"): return "%s.%s(...)" % (n.func.value.id, n.func.attr)
+                d = next((x for x in tree.body if isinstance(x, ast.FunctionDef) and x.name == nm), None)
+                if d is not None:
+                    r = impure(d, tree, depth + 1, seen)
+                    if r: return "%s -> %s" % (nm, r)
+        return None
+    def judge(tree, use):
+        node, target, how = use
+        if how == "decorator": fn = target
+        else:
+            fn = next((x for x in ast.walk(tree) if isinstance(x, ast.FunctionDef) and isinstance(target, ast.Name) and x.name == target.id), None) if target is not None else None
+            if fn is None: return "memoizes %s, a callable the package did not write (its result may depend on more than its arguments)" % (ast.unparse(target) if target is not None else "a callable")
+        why = impure(fn, tree)
+        return ("memoizes %s, whose result depends on more than its arguments (%s)" % (fn.name, why)) if why else None
+    fx = _parse_fixture_memo()
+    got = [judge(fx, u) is not None for u in uses(fx)]
+    if sorted(got) != [False, True, True, True]: raise AnalysisError("memoization rule: the built-in positive example is classified %s" % got)
+    for rel in FILES_ALL(root):
+        t = load(root, rel); inst += 1
+        for u in uses(t):
+            inst += 1
+            bad = judge(t, u)
+            q = qualname(u[1]) if u[2] == "decorator" else (qualname(u[0]) or "module level")
+            for pr in ("C16", "C25", "C26"): ob(pr, "C16.i", rel, q, "memoization: %s" % " ".join(ast.unparse(u[0]).split())[:70], bad is None)
+            if bad:
+                for pr in ("C16", "C25", "C26"): out.append(Finding(pr, "C16.i", rel, q, " ".join(ast.unparse(u[0]).split())[:90], "a process-wide memo %s: later loads see the first result although files, registrations or configuration changed" % bad, witness="edit the grammar file / register another factory and load again in the same process"))
+    for pr in ("C16", "C25", "C26"): ob(pr, "C16.i", "textx/", "package", "every memoization in the package wraps a function of its arguments only (%d files)" % inst, not out)
+    return max(inst, 1), out
+def _parse_fixture_memo():
+    import ast
+    src = '''
+import functools, os
+from functools import lru_cache
+@lru_cache(maxsize=None)
+def read(path):
+    with open(path) as f: return f.read()
+@functools.cache
+def pure(a, b): return a + b
+def deco(gen_f):
+    return functools.cache(gen_f)
+@functools.lru_cache
+def env(k): return helper(k)
+def helper(k): return os.getenv(k)
+'''
+    t = ast.parse(src)
+    for a in ast.walk(t):
+        for c in ast.iter_child_nodes(a): c._parent = a
+    return t
+def FILES_ALL(root):
+    import os
+    res = []
+    for dp, dn, fnames in os.walk(os.path.join(root, "textx")):
+        dn[:] = [d for d in dn if d != "__pycache__"]
+        for f in fnames:
+            if f.endswith(".py"): res.append(os.path.relpath(os.path.join(dp, f), root))
+    return sorted(res)
